@@ -70,14 +70,16 @@ func c15Scenarios(tier string) (rulesSc, lockSc []CScenario) {
 			rulesSc = append(rulesSc, cs)
 		}
 	}
-	// Requests that are refused early (a key named twice, an entry without a public key, an entry without data) must
+	// Requests that are refused early (a key named twice - also with its second spelling one byte longer -, an entry without
+	// a public key, an entry without data) must
 	// not leave anything locked: ordinary requests on the same keys, concurrent and afterwards, still complete.
 	bad := func(kind string, keys []int) CReq {
 		r := attsN(keys, 0, 1)
 		r.Kind = kind
 		return r
 	}
-	for _, b := range []CReq{attsN([]int{0, 0}, 0, 1), attsN([]int{0, 1, 0}, 0, 1), bad("atts-nokey", []int{0, 1}), bad("atts-nildata", []int{0, 1}), signsN(1, 1)} {
+	for _, b := range []CReq{attsN([]int{0, 0}, 0, 1), attsN([]int{0, 1, 0}, 0, 1), bad("atts-nokey", []int{0, 1}), bad("atts-nildata", []int{0, 1}), signsN(1, 1), bad("atts-longkey", []int{0, 0}), bad("atts-longkey", []int{1, 0, 1}),
+		CReq{Kind: "signs-longkey", Keys: []int{0, 0}}} {
 		cs := CScenario{Name: "refused-early " + b.String() + ";att(0)||atts[1 0]", Threads: [][]CReq{{b, att1(0, 1, 2)}, {attsN([]int{1, 0}, 2, 3)}}}
 		lockSc = append(lockSc, cs)
 		rulesSc = append(rulesSc, cs)
